@@ -2,6 +2,11 @@
 
 package sod
 
+import (
+	"os"
+	"time"
+)
+
 // Shared types and helpers of the Tier B (public API) harnesses.
 
 type vObj struct {
@@ -12,31 +17,174 @@ type vObj struct {
 	F float64
 }
 
-func VH_T00_smoke() {
+type vhCfg struct {
+	name     string
+	cache    bool
+	compress bool
+	async    bool
+	lower    bool
+	ext      string
+}
+
+var vhCfgs = []vhCfg{
+	{name: "base"},
+	{name: "cache", cache: true},
+	{name: "gzip", compress: true},
+	{name: "async", async: true},
+	{name: "lower", lower: true},
+	{name: "ext", ext: ".bin"},
+}
+
+func vhSchema(c vhCfg) Schema {
+	s := DefaultSchema
+	s.Cache = c.cache
+	s.Compress = c.compress
+	if c.ext != "" {
+		s.Extension = c.ext
+	}
+	if c.async {
+		s.Asynchrone(1000, time.Hour)
+	}
+	LowercaseNames = c.lower
+	return s
+}
+
+func vhPickCfg() vhCfg {
+	if k := vBound("CFGONLY", -1); k >= 0 {
+		return vhCfgs[k]
+	}
+	return vhCfgs[vChoice("cfg", vBound("CFG", len(vhCfgs)))]
+}
+
+// vhOpenDB opens a fresh database and creates the vObj collection.
+func vhOpenDB(c vhCfg) (*DB, string) {
 	root := vTempDir()
 	db := Open(root)
-	err := db.Create(&vObj{}, DefaultSchema)
-	vAssert("T00.create", err == nil)
-	a := vInt64("a")
-	o := &vObj{A: a, S: "x", U: 7}
-	err = db.InsertOrUpdate(o)
-	vAssert("T00.insert", err == nil)
+	err := db.Create(&vObj{}, vhSchema(c))
+	vAssert("setup.create", err == nil)
+	return db, root
+}
+
+type vhRow struct {
+	uuid string
+	o    vObj
+}
+
+// vhNewObj returns an object with arbitrary field values.
+func vhNewObj() *vObj {
+	o := &vObj{A: vInt64("A"), U: vUint64("U")}
+	if vBound("LS", 0) > 0 {
+		o.S = vString("S", vBound("LS", 0))
+	} else {
+		o.S = "s"
+	}
+	return o
+}
+
+func vhFieldsEq(got, want *vObj) bool {
+	return vAnd(vAnd(got.A == want.A, got.S == want.S), vAnd(got.U == want.U, got.F == want.F))
+}
+
+func vhFindRow(rows []vhRow, uuid string) int {
+	for i := range rows {
+		if rows[i].uuid == uuid {
+			return i
+		}
+	}
+	return -1
+}
+
+const vhAbsentUUID = "ffffffff-ffff-4fff-8fff-ffffffffffff"
+
+// vhCheckReads asserts that every read path reports exactly rows.
+func vhCheckReads(tag string, db *DB, rows []vhRow) {
 	n, err := db.Count(&vObj{})
-	vAssert("T00.count", err == nil && n == 1)
-	got, err := db.GetByUUID(&vObj{}, o.UUID())
-	vAssert("T00.get", err == nil)
-	if err == nil {
-		vAssert("T00.get.A", got.(*vObj).A == a)
+	vAssert(tag+".count", err == nil && n == len(rows))
+
+	objs, err := db.All(&vObj{})
+	vAssert(tag+".all.ok", err == nil)
+	vAssert(tag+".all.len", len(objs) == len(rows))
+	seen := map[string]bool{}
+	for _, o := range objs {
+		k := vhFindRow(rows, o.UUID())
+		vAssert(tag+".all.member", k >= 0 && !seen[o.UUID()])
+		seen[o.UUID()] = true
+		if k >= 0 {
+			vAssert(tag+".all.fields", vhFieldsEq(o.(*vObj), &rows[k].o))
+		}
 	}
-	s := db.Search(&vObj{}, "A", "=", a)
-	vAssert("T00.search.len", s.Err() == nil && s.Len() == 1)
-	vAssert("T00.close", db.Close() == nil)
-	db2 := Open(root)
-	got, err = db2.GetByUUID(&vObj{}, o.UUID())
-	vAssert("T00.reopen.get", err == nil)
-	if err == nil {
-		vAssert("T00.reopen.get.A", got.(*vObj).A == a)
+	for i := range rows {
+		got, err := db.GetByUUID(&vObj{}, rows[i].uuid)
+		vAssert(tag+".get.ok", err == nil)
+		if err == nil {
+			vAssert(tag+".get.fields", vhFieldsEq(got.(*vObj), &rows[i].o))
+			vAssert(tag+".get.uuid", got.UUID() == rows[i].uuid)
+		}
+		probe := &vObj{}
+		probe.Initialize(rows[i].uuid)
+		ok, err := db.Exist(probe)
+		vAssert(tag+".exist", err == nil && ok)
 	}
-	s = db2.Search(&vObj{}, "A", "=", a)
-	vAssert("T00.reopen.search", s.Err() == nil && s.Len() == 1)
+	// an identifier that was never stored: not found, every time
+	for k := 0; k < 2; k++ {
+		_, err := db.GetByUUID(&vObj{}, vhAbsentUUID)
+		vAssert(tag+".absent.get", err != nil)
+		if err != nil {
+			vAssert(tag+".absent.class", os.IsNotExist(err))
+		}
+	}
+	probe := &vObj{}
+	probe.Initialize(vhAbsentUUID)
+	ok, err := db.Exist(probe)
+	vAssert(tag+".absent.exist", err == nil && !ok)
+}
+
+// vhCheckSearch asserts that Search(field op probe) denotes exactly the
+// matching rows, for one operator and an arbitrary probe.
+func vhCheckSearch(tag string, db *DB, rows []vhRow, field string) {
+	op := vhOps[vChoice("sop", len(vhOps))]
+	var p interface{}
+	switch field {
+	case "A":
+		p = vInt64("probeA")
+	case "U":
+		p = vUint64("probeU")
+	case "S":
+		p = vString("probeS", vBound("LS", 0)+1)
+	}
+	s := db.Search(&vObj{}, field, op, p)
+	vAssert(tag+".search.ok", s.Err() == nil)
+	if s.Err() != nil {
+		return
+	}
+	objs, err := s.Collect()
+	vAssert(tag+".search.collect", err == nil)
+	vAssert(tag+".search.len", s.Len() == len(objs))
+	got := map[string]int{}
+	for _, o := range objs {
+		got[o.UUID()]++
+	}
+	tot := 0
+	for i := range rows {
+		var v interface{}
+		switch field {
+		case "A":
+			v = rows[i].o.A
+		case "U":
+			v = rows[i].o.U
+		case "S":
+			v = rows[i].o.S
+		}
+		c := got[rows[i].uuid]
+		tot += c
+		vAssert(tag+".search.nodup", c <= 1)
+		vAssert(tag+".search.member", vIff(vhCmp(op, v, p), c == 1))
+	}
+	vAssert(tag+".search.only_stored", tot == len(objs))
+}
+
+func vhReopen(db *DB, root string) *DB {
+	err := db.Close()
+	vAssert("setup.close", err == nil)
+	return Open(root)
 }
